@@ -2,7 +2,7 @@
    Each returns a code: 0 = the implementation's observations agree with the model, otherwise the
    number of the first comparison that failed. *)
 Require Import Cherab.Common.Qx.
-Require Import Cherab.Model.C18_Laser Cherab.Model.C18_Spectrum.
+Require Import Cherab.Model.C18_Laser Cherab.Model.C18_Spectrum Cherab.Model.C18_Float.
 From Coq Require Import Qabs.
 Open Scope Q_scope.
 
@@ -69,7 +69,7 @@ Definition check_seg (m i : Q * Q) : bool :=
 
 Definition check_profile (c pi s2pi3 : Q) (k : pkind) (a : pargs) (ops : list pop)
     (ctor_ok : bool) (rs : list Z) (rep : list Q) (probes : list probe)
-    (polv : vec) (pol_len : Q) (radii : list Q) (nseg : Z) (segs : list (Z * (Q * Q))) : Z :=
+    (polv : vec) (pol_len : Q) (radii : list Q) (nseg : Z) (segs : list (Z * (Q * Q))) (exactfl : bool) : Z :=
   match construct c k a with
   | None => if ctor_ok then 1%Z else 0%Z
   | Some s0 =>
@@ -86,7 +86,12 @@ Definition check_profile (c pi s2pi3 : Q) (k : pkind) (a : pargs) (ops : list po
               | Some l => (Z.of_nat (length l) =? nseg)%Z &&
                           forallb (fun e => check_seg (nth (Z.to_nat (fst e)) l (-1, -1)) (snd e)) segs
               | None => false
-              end) ]
+              end);
+        (* the same cylinders against the computation in doubles: EXACT (normal range only, [exactfl]) *)
+        (9%Z, negb exactfl ||
+              forallb (fun e => let m := if (1 <? nseg)%Z then fl_segment round53 (v_len (vals s)) nseg (fst e)
+                                         else (0, v_len (vals s)) in
+                                Qeq_bool (fst m) (fst (snd e)) && Qeq_bool (snd m) (snd (snd e))) segs) ]
   end.
 
 (* ------------------------------------------------------------------------------------------ *)
@@ -129,7 +134,8 @@ Definition check_seval (erf : Q -> Q) (sqrt2 sqrt2pi : Q) (s : sstate) (e : seva
    deltas = [delta_wavelength; get_delta_wavelength()] *)
 Definition check_spectrum (pi sqrt2 sqrt2pi : Q) (k : skind) (a : sargs) (ops : list sop)
     (ctor_ok : bool) (rs : list Z) (rep : list Q) (zrep : list Z) (deltas : list Q)
-    (slack : Q) (tbl : list (Q * Q)) (wl psd : list Q) (evals : list seval) : Z :=
+    (slack : Q) (tbl : list (Q * Q)) (wl psd : list Q) (evals : list seval)
+    (exactfl : bool) (calls : list (Q * Q * Q)) : Z :=
   let erf := erf_lookup slack tbl in
   match sconstruct erf sqrt2 sqrt2pi k a with
   | None => if ctor_ok then 1%Z else 0%Z
@@ -149,5 +155,18 @@ Definition check_spectrum (pi sqrt2 sqrt2pi : Q) (k : skind) (a : sargs) (ops : 
               | SConst => check_psd_const s psd
               | SGauss => forallb2 (fun m i => close 0 tol_pow (m * s_delta s) (i * s_delta s)) (s_psd s) psd
               end);
-        (9%Z, forallb (check_seval erf sqrt2 sqrt2pi s) evals) ]
+        (9%Z, forallb (check_seval erf sqrt2 sqrt2pi s) evals);
+        (* delta_wavelength, wavelengths and (ConstantSpectrum) the binned density against the computation in doubles:
+           EXACT, no tolerance (normal range only, [exactfl]) *)
+        (10%Z, negb exactfl ||
+               let d := fl_delta round53 (s_min s) (s_max s) (s_bins s) in
+               forallb (Qeq_bool d) deltas &&
+               forallb2 Qeq_bool (map (fl_centre round53 (s_min s) d) (seq 0 (Z.to_nat (s_bins s)))) wl &&
+               match k with
+               | SConst => forallb2 Qeq_bool (fl_const_psd round53 (s_min s) (s_max s) (s_bins s)) psd
+               | SGauss => true
+               end);
+        (* direct calls obj._get_bin_power_spectral_density(lo, hi) of the ConstantSpectrum: the model's bin_psd *)
+        (11%Z, forallb (fun cl => let '(lo, hi, impl) := cl in
+                          close tol_geo (pow2 (-1000)) (bin_psd erf s (s_delta s) lo hi) impl) calls) ]
   end.
